@@ -167,6 +167,24 @@ def strsOf (s : String) : List String := if s = "-" then [] else s.splitOn ","
 def verifyOp (toks : List String) : Option String :=
   open AC.Verify in
   match toks with
+  | ["pred.linked", n, offset, rvl, proof, claim] =>
+    match n.toNat?, offset.toNat?, natsOf? rvl, listOf? frOf? proof, claim.toNat? with
+    | some n, some off, some rvl, some proof, some claim =>
+      some (match linkedResponse n off rvl proof claim with
+        | some r => "ok " ++ frHex r
+        | none => "err")
+    | _, _, _, _, _ => none
+  | "eq.verdict" :: offset :: claim :: refs =>
+    let ref? : String → Option (Nat × List Nat × List Fr) := fun tok =>
+      match tok.splitOn "|" with
+      | [n, rvl, proof] =>
+        match n.toNat?, natsOf? rvl, listOf? frOf? proof with
+        | some n, some rvl, some proof => some (n, rvl, proof)
+        | _, _, _ => none
+      | _ => none
+    match offset.toNat?, claim.toNat?, refs.mapM ref? with
+    | some off, some claim, some refs => some (toString (equalityVerdict off claim refs))
+    | _, _, _ => none
   | ["eq.check", rs] =>
     (listOf? frOf? rs).map fun rs => toString (allEqual rs)
   | ["vf.disclosed", req, labels, types, rep, inner] =>
